@@ -94,7 +94,16 @@ func chance(t *rapid.T, label string, num, den int) bool {
 var pomGroups = []string{"org.example", "com.acme.lib", "io.x", "junit", "commons-io", "org.apache.maven.plugins"}
 var pomArtifacts = []string{"core", "web-api", "util_x", "a.b", "junit", "guava", "commons-io", "x"}
 var pomVersions = []string{"1.0", "2.3.4", "1.0.0-RC1", "4.12", "1.2.3.Final", "0.9-SNAPSHOT", "[1.0,2.0)", "3", "31.1-jre"}
-var pomNewVersions = []string{"2", "9.9.9", "3.1", "1.0.1", "2.0.0-RC2", "10.2.3.Final", "[2.0,3.0)", "5.0-SNAPSHOT", "1", "4.13.2", "32.0.0-jre", "7.Final"}
+var pomNewVersions = []string{"2", "9.9.9", "3.1", "1.0.1", "2.0.0-RC2", "10.2.3.Final", "[2.0,3.0)", "5.0-SNAPSHOT", "1", "4.13.2", "32.0.0-jre", "7.Final",
+	"1.10.0", "2.0.0", "21.1.0", "1.1.0", "10.0", "1.10", "3.0.0.0", "12.2.3"}
+
+// literal text around the placeholders of an interpolated version, and values of the
+// properties used there (current ones and requested ones): chosen so that the value next
+// to a literal part often ends (begins) with characters of that literal part.
+var pomVerPrefixes = []string{"1.", "1.0.", "2.1.", "v", "10.", "0."}
+var pomVerSuffixes = []string{"-jre", ".Final", ".0", ".0", ".1.0", ".2.3", ".0.0", "-SNAPSHOT", ".10", ".RELEASE"}
+var pomVerSeps = []string{".", "-", ".0.", ".", ".1."}
+var pomPropBases = []string{"1", "2", "10", "1.1", "21", "3.0", "12", "1.10", "2.0.1", "100", "0", "4.5", "31.1"}
 var pomComments = []string{"x", "managed versions", "TODO: bump", "see https://example.com/?a=1&b=2 <later>", "license: Apache 2.0", " spaced  out ", "${not.a.property}"}
 var pomPropNames = []string{"lib.version", "rev", "dep-x.version", "junitVersion", "v_1", "version.guava"}
 
@@ -171,31 +180,133 @@ func (g *pomGen) propFor(file int, profile string, val string) string {
 }
 
 func (g *pomGen) version(file int, profile string) string {
-	switch rapid.IntRange(0, 11).Draw(g.t, "ver_form") {
+	val := func(label string, small []string) string {
+		if rapid.Bool().Draw(g.t, label+"_wide") {
+			return rapid.SampledFrom(pomPropBases).Draw(g.t, label)
+		}
+		return rapid.SampledFrom(small).Draw(g.t, label)
+	}
+	switch rapid.IntRange(0, 13).Draw(g.t, "ver_form") {
 	case 7, 8, 9:
 		return "${" + g.propFor(file, profile, rapid.SampledFrom(pomVersions).Draw(g.t, "prop_val")) + "}"
 	case 10:
-		pre := rapid.SampledFrom([]string{"1.", "1.0.", "2.1.", "v"}).Draw(g.t, "ver_prefix")
-		return pre + "${" + g.propFor(file, profile, rapid.SampledFrom([]string{"3", "4.5", "0", "12"}).Draw(g.t, "prop_val")) + "}"
-	case 11:
-		suf := rapid.SampledFrom([]string{"-jre", ".Final", ".0", "-SNAPSHOT"}).Draw(g.t, "ver_suffix")
-		return "${" + g.propFor(file, profile, rapid.SampledFrom([]string{"3", "4.5", "31.1"}).Draw(g.t, "prop_val")) + "}" + suf
-	case 5:
-		sep := rapid.SampledFrom([]string{".", "-", ".0."}).Draw(g.t, "ver_sep")
-		a := g.propFor(file, profile, rapid.SampledFrom([]string{"1", "2.3", "10"}).Draw(g.t, "prop_val"))
-		b := g.propFor(file, profile, rapid.SampledFrom([]string{"4", "5.6", "RC1"}).Draw(g.t, "prop_val2"))
+		pre := rapid.SampledFrom(pomVerPrefixes).Draw(g.t, "ver_prefix")
+		return pre + "${" + g.propFor(file, profile, val("prop_val", []string{"3", "4.5", "0", "12"})) + "}"
+	case 11, 12:
+		suf := rapid.SampledFrom(pomVerSuffixes).Draw(g.t, "ver_suffix")
+		return "${" + g.propFor(file, profile, val("prop_val", []string{"3", "4.5", "31.1"})) + "}" + suf
+	case 5, 13:
+		sep := rapid.SampledFrom(pomVerSeps).Draw(g.t, "ver_sep")
+		a := g.propFor(file, profile, val("prop_val", []string{"1", "2.3", "10"}))
+		b := g.propFor(file, profile, val("prop_val2", []string{"4", "5.6", "RC1"}))
 		if a == b {
 			return "${" + a + "}"
 		}
-		return "${" + a + "}" + sep + "${" + b + "}"
+		v := "${" + a + "}" + sep + "${" + b + "}"
+		// literal text before the first and/or after the last placeholder as well
+		switch rapid.IntRange(0, 5).Draw(g.t, "ver_multi_affix") {
+		case 3:
+			v = rapid.SampledFrom(pomVerPrefixes).Draw(g.t, "ver_prefix") + v
+		case 4:
+			v += rapid.SampledFrom(pomVerSuffixes).Draw(g.t, "ver_suffix")
+		case 5:
+			v = rapid.SampledFrom(pomVerPrefixes).Draw(g.t, "ver_prefix") + v + rapid.SampledFrom(pomVerSuffixes).Draw(g.t, "ver_suffix")
+		}
+		return v
 	case 6:
-		return "1.${" + g.propFor(file, profile, "2") + "}.0"
+		pre := rapid.SampledFrom(pomVerPrefixes).Draw(g.t, "ver_prefix")
+		suf := rapid.SampledFrom(pomVerSuffixes).Draw(g.t, "ver_suffix")
+		return pre + "${" + g.propFor(file, profile, val("prop_val", []string{"2"})) + "}" + suf
 	case 4:
 		if file == 0 && profile == "" && g.files[0].V != "" {
 			return "${project.version}"
 		}
 	}
 	return rapid.SampledFrom(pomVersions).Draw(g.t, "ver_lit")
+}
+
+// splitInterpolated cuts the literal text of a version into the literal parts around its
+// placeholders: lits[0] ${names[0]} lits[1] ... ${names[n-1]} lits[n].
+func splitInterpolated(lit string) (lits, names []string) {
+	for {
+		i := strings.Index(lit, "${")
+		if i < 0 {
+			break
+		}
+		j := strings.Index(lit[i:], "}")
+		if j < 0 {
+			break
+		}
+		lits = append(lits, lit[:i])
+		names = append(names, lit[i+2:i+j])
+		lit = lit[i+j+1:]
+	}
+	return append(lits, lit), names
+}
+
+func trimSeps(s string) string { return strings.Trim(s, ".-") }
+
+// shapedPropValue draws a value for a placeholder standing between the literal parts pre
+// and suf: a plain value, often extended at its end with text made of the characters of
+// suf (the suffix itself, the suffix without its separator, the suffix twice, its last
+// character repeated) and sometimes at its start with text made of the characters of pre.
+func (g *pomGen) shapedPropValue(pre, suf string) string {
+	v := rapid.SampledFrom(pomPropBases).Draw(g.t, "to_base")
+	if suf != "" {
+		switch rapid.IntRange(0, 5).Draw(g.t, "to_tail") {
+		case 1:
+			v += suf // 1 + .0 -> 1.0 (requirement 1.0.0)
+		case 2:
+			v += trimSeps(suf) // 1 + 0 -> 10 (requirement 10.0)
+		case 3:
+			v += suf + suf
+		case 4:
+			v += strings.Repeat(suf[len(suf)-1:], 2)
+		case 5:
+			v += "." + trimSeps(suf) + suf // 1 + .0.0 -> requirement 1.0.0.0
+		}
+	}
+	if pre != "" {
+		switch rapid.IntRange(0, 5).Draw(g.t, "to_head") {
+		case 1:
+			v = pre + v
+		case 2:
+			v = trimSeps(pre) + v
+		case 3:
+			v = pre[:1] + v
+		}
+	}
+	return v
+}
+
+// shapedTarget draws the requested version for a requirement whose declared version lit is
+// property-interpolated: mostly one that is lit with other values for its properties, and
+// sometimes one that cannot be expressed that way (the literal parts alone, a different
+// ending, a different beginning) for which the writer has to rewrite <version> itself.
+func (g *pomGen) shapedTarget(lit string) string {
+	lits, names := splitInterpolated(lit)
+	var b strings.Builder
+	for i, l := range lits {
+		b.WriteString(l)
+		if i < len(names) {
+			b.WriteString(g.shapedPropValue(l, lits[i+1]))
+		}
+	}
+	v := b.String()
+	switch rapid.IntRange(0, 9).Draw(g.t, "to_shape") {
+	case 7:
+		// nothing left for the properties
+		if bare := trimSeps(strings.Join(lits, "")); bare != "" {
+			return strings.ReplaceAll(strings.ReplaceAll(bare, "..", "."), "--", "-")
+		}
+	case 8:
+		// another ending than the literal suffix
+		return v + rapid.SampledFrom([]string{"1", ".1", "-b2", "0"}).Draw(g.t, "to_other_end")
+	case 9:
+		// another beginning than the literal prefix
+		return rapid.SampledFrom([]string{"9", "2.", "0", "r"}).Draw(g.t, "to_other_start") + v
+	}
+	return v
 }
 
 func (g *pomGen) dep(file int, profile string) pomDep {
@@ -484,7 +595,7 @@ func genPomCase(t *rapid.T, col *ev.Collector) *pomCase {
 	if chance(t, "multi_scope_property", 1, 4) {
 		g.n++
 		name := fmt.Sprintf("scoped.version%d", g.n)
-		lit := rapid.SampledFrom([]string{"${" + name + "}", "${" + name + "}", "1.${" + name + "}", "${" + name + "}.Final"}).Draw(t, "ms_form")
+		lit := rapid.SampledFrom([]string{"${" + name + "}", "${" + name + "}", "1.${" + name + "}", "${" + name + "}.Final", "${" + name + "}.0", "${" + name + "}.1.0", "1.${" + name + "}.0"}).Draw(t, "ms_form")
 		grp, art := g.coord()
 		own := pomProfile{ID: fmt.Sprintf("scoped-%d", g.n), Active: true,
 			Props: []pomProp{{Name: name, Val: rapid.SampledFrom([]string{"3", "4.5", "1.0"}).Draw(t, "ms_val")}}}
@@ -557,7 +668,12 @@ func genPomCase(t *rapid.T, col *ev.Collector) *pomCase {
 		if err != nil {
 			t.Fatalf("generator: %v", err)
 		}
-		nv := rapid.SampledFrom(pomNewVersions).Draw(t, "to")
+		var nv string
+		if strings.Contains(s.verLit, "${") && chance(t, "to_shaped", 3, 4) {
+			nv = g.shapedTarget(s.verLit)
+		} else {
+			nv = rapid.SampledFrom(pomNewVersions).Draw(t, "to")
+		}
 		if nv == cur {
 			nv = "99.0"
 		}
